@@ -89,9 +89,21 @@ ADDENDA7 = {
  "C17": " Round 7: (R17.10) LockPackage.Neighbors is a complete projection.",
  "C20": " Round 7: the identifier is removed as a suffix; (R20.7) certificates are issued with the signer's certificate as parent.",
 }
+ADDENDA8 = {
+ "C02": " Round 8: the observer's controller test examines the object as last read.",
+ "C03": " Round 8: an anonymous P&T template is stamped with the empty name.",
+ "C04": " Round 8: the context is refreshed on every way into the next requirements round.",
+ "C05": " Round 8: an empty list of readiness checks is decided by the Ready condition.",
+ "C09": " Round 8: the allow map is filled before it is consulted.",
+ "C11": " Round 8: (R11.6) the author's metadata.name limit is honoured whenever set and stricter.",
+ "C13": " Round 8: StopWatches forgets a watch only after its source stopped.",
+ "C16": " Round 8: every write of update() comes after the package owner reference was looked up.",
+ "C19": " Round 8: the Usage's finalizer is removed after the Usages of the resource were counted.",
+ "C20": " Round 8: the CA injection loop runs for webhook configurations of any name.",
+}
 for pid in sorted(CHECKS):
     c = dict(CHECKS[pid])
-    c["text"] = c["text"] + ADDENDA.get(pid, "") + ADDENDA5.get(pid, "") + ADDENDA6.get(pid, "") + ADDENDA7.get(pid, "") + COMMON
+    c["text"] = c["text"] + ADDENDA.get(pid, "") + ADDENDA5.get(pid, "") + ADDENDA6.get(pid, "") + ADDENDA7.get(pid, "") + ADDENDA8.get(pid, "") + COMMON
     c["technique"] = c["technique"] + "; path-sensitive gate-crossing search over the inlined normal form"
     m["checks"].append({
      "property_id": pid,
